@@ -1,0 +1,151 @@
+//! Verification wrappers (feature `verif-hooks` only) around crate-private pieces of the
+//! net-report aggregation, the report history / preferred relay choice, the home relay
+//! watchable and the address lookup registry.  Thin forwards; no behaviour of their own.
+
+use std::{net::SocketAddr, sync::Arc, time::Duration};
+
+use iroh_base::RelayUrl;
+use n0_error::AnyError;
+
+use crate::{
+    address_lookup::{AddressLookupServices, EndpointData},
+    net_report::verif_access as nr,
+    socket::transports::{HomeRelayWatch, RelayConnectionState},
+};
+pub use crate::net_report::{Probe, RelayLatencies, Report};
+
+/// `Report::update` with an HTTPS probe report.
+pub fn report_update_https(r: &mut Report, relay: RelayUrl, latency: Duration) {
+    nr::report_update_https(r, relay, latency)
+}
+
+/// `Report::update` with a QAD probe report (from the IPv6 probe if `v6_probe`).
+pub fn report_update_qad(
+    r: &mut Report,
+    v6_probe: bool,
+    relay: RelayUrl,
+    latency: Duration,
+    addr: SocketAddr,
+) {
+    nr::report_update_qad(r, v6_probe, relay, latency, addr)
+}
+
+/// `RelayLatencies::update_relay`.
+pub fn latencies_update(l: &mut RelayLatencies, url: RelayUrl, latency: Duration, probe: Probe) {
+    nr::latencies_update(l, url, latency, probe)
+}
+
+/// `RelayLatencies::merge`.
+pub fn latencies_merge(l: &mut RelayLatencies, other: &RelayLatencies) {
+    nr::latencies_merge(l, other)
+}
+
+/// `RelayLatencies::get`.
+pub fn latencies_get(l: &RelayLatencies, url: &RelayUrl) -> Option<Duration> {
+    nr::latencies_get(l, url)
+}
+
+/// `RelayLatencies::is_empty`.
+pub fn latencies_is_empty(l: &RelayLatencies) -> bool {
+    nr::latencies_is_empty(l)
+}
+
+/// The report history of a net-report client (no I/O is performed).
+#[derive(Debug)]
+pub struct ReportHistory(nr::History);
+
+impl ReportHistory {
+    /// A client with an empty history.
+    pub fn new(dns_resolver: iroh_dns::dns::DnsResolver, tls_config: rustls::ClientConfig) -> Self {
+        Self(nr::History::new(dns_resolver, tls_config))
+    }
+
+    /// `Client::add_report_history_and_set_preferred_relay`.
+    pub fn add(&mut self, r: &mut Report) {
+        self.0.add(r)
+    }
+
+    /// Number of reports kept in the history.
+    pub fn prev_len(&self) -> usize {
+        self.0.prev_len()
+    }
+
+    /// Forgets the last report but keeps the history, as `get_report` does for a full report.
+    pub fn forget_last(&mut self) {
+        self.0.forget_last()
+    }
+}
+
+/// Connection state as seen through the home relay watchable.
+#[derive(Debug, Clone, PartialEq, Eq)]
+pub enum HomeState {
+    /// `RelayConnectionState::Connecting`
+    Connecting,
+    /// `RelayConnectionState::Connected`
+    Connected,
+    /// `RelayConnectionState::Disconnected`, with the rendered last error.
+    Disconnected(Option<String>),
+}
+
+impl HomeState {
+    fn to_real(&self) -> RelayConnectionState {
+        match self {
+            HomeState::Connecting => RelayConnectionState::Connecting,
+            HomeState::Connected => RelayConnectionState::Connected,
+            HomeState::Disconnected(e) => RelayConnectionState::Disconnected {
+                last_error: e
+                    .as_ref()
+                    .map(|m| Arc::new(AnyError::from_std(std::io::Error::other(m.clone())))),
+            },
+        }
+    }
+}
+
+/// The `HomeRelayWatch` shared by the relay actor and its relay connections.
+#[derive(Debug, Clone, Default)]
+pub struct HomeRelay(HomeRelayWatch);
+
+impl HomeRelay {
+    /// `HomeRelayWatch::set` (relay actor).
+    pub fn set(&self, url: RelayUrl, state: &HomeState) {
+        self.0.verif_set(url, state.to_real())
+    }
+
+    /// `HomeRelayWatch::clear` (relay actor).
+    pub fn clear(&self) {
+        self.0.verif_clear()
+    }
+
+    /// `HomeRelayWatch::set_status` (a relay connection).
+    pub fn set_status(&self, url: &RelayUrl, state: &HomeState) {
+        self.0.verif_set_status(url, state.to_real())
+    }
+
+    /// `HomeRelayWatch::get`: the advertised url, whether connected, rendered last error,
+    /// and whether the state is `Connecting`.
+    pub fn get(&self) -> Option<(RelayUrl, HomeState)> {
+        self.0.verif_get().map(|s| {
+            let st = if s.is_connected() {
+                HomeState::Connected
+            } else if let Some(e) = s.last_error() {
+                HomeState::Disconnected(Some(format!("{e}")))
+            } else if s.verif_is_connecting() {
+                HomeState::Connecting
+            } else {
+                HomeState::Disconnected(None)
+            };
+            (s.url().clone(), st)
+        })
+    }
+
+    /// `HomeRelayWatch::watch().get()`: the value observers see.
+    pub fn watched(&self) -> Option<RelayUrl> {
+        use n0_watcher::Watcher;
+        self.0.watch().get().map(|s| s.url().clone())
+    }
+}
+
+/// The crate-private `AddressLookupServices::publish`.
+pub fn address_lookup_publish(services: &AddressLookupServices, data: &EndpointData) {
+    services.publish(data)
+}
